@@ -89,9 +89,9 @@ def judge (known : List String) (case impl : String) : JudgeOut :=
       -- the property: measures of the document with fragments written inline
       let specOut : String :=
         let F := capNest + 8
-        let d' := Spec.Limits.inline F doc
+        let d' := Spec.Limits.inlineDoc F doc
         let probe (c : PCfg) : String :=
-          token (Spec.Limits.decide
+          token (Spec.Limits.required
             { recursion := c.recursion.getD Gen.LimitFacts.documentedRecursiveDepth, directives := c.directives,
               complexity := c.complexity, depth := c.depth } S R ρ F doc)
         let n := Spec.Limits.nesting d'
